@@ -303,7 +303,7 @@ def run(ctx):
         pairs = [(x, y) for x in vecs for y in vecs if rng.random() < 0.35]
     for x, y in pairs:
         cases.append((list(x), list(y), None, None, float("inf"), 0.0, "exhaustive"))
-    for _ in range(1500 if quick else 20000):
+    for _ in range(4000 if quick else 30000):
         T = rng.choice([3, 4, 5, 6, 7, 8, 9, 10, 12, 14, 16])
         x, y = gen_pair(rng, T)
         ts1, k1 = gen_timestamps(rng, T)
@@ -457,7 +457,7 @@ def run(ctx):
     # matrix level
     # ------------------------------------------------------------------
     reqs, impl = [], []
-    for c in range(120 if quick else 1500):
+    for c in range(300 if quick else 2500):
         N = rng.choice([2, 3, 3, 4, 5])
         T = rng.choice([4, 6, 8, 10, 12])
         cols = []
@@ -548,7 +548,7 @@ def run(ctx):
     # thresholding
     # ------------------------------------------------------------------
     reqs, impl = [], []
-    for c in range(250 if quick else 3000):
+    for c in range(600 if quick else 6000):
         N = rng.choice([1, 2, 3, 4])
         T = rng.choice([1, 2, 3, 4, 5, 6, 8, 9, 12, 17])
         span = rng.choice([2, 3, 6, 20])
